@@ -195,8 +195,8 @@ Qed.
 
 Lemma lookup_state_eq s1 s2 probe : state_eq s1 s2 -> lookup_static up s1 probe = lookup_static up s2 probe.
 Proof.
-  intros (Ha & Hc & Ht). unfold lookup_static. destruct (up probe) as [p|]; [|reflexivity].
-  unfold get_backend_static, get_backend_locked. rewrite Ha, Hc, !Ht. reflexivity.
+  intros (Ha & Hc & Ht). unfold lookup_static, lookup_static_with. destruct (up probe) as [p|]; [|reflexivity].
+  unfold get_backend_static_with, get_backend_locked_with. rewrite Ha, Hc, !Ht. reflexivity.
 Qed.
 
 (* ---- what is accepted is configured ---------------------------------------------------- *)
@@ -248,36 +248,118 @@ Qed.
 Lemma prefix_empty s : String.prefix "" s = true.
 Proof. destruct s; reflexivity. Qed.
 
-Lemma find_entry_some entries sch url e : find_entry entries sch url = Some e ->
-  In e entries /\ is_url_allowed e sch = true /\ String.prefix (b_url e) url = true.
+(* ---- the test of one entry (fixes/C13/07): prefix ending at a path-segment boundary ------ *)
+Lemma prefix_app_slash eu : forall url,
+  String.prefix (eu ++ "/") url = String.prefix eu url && is_slash (String.get (String.length eu) url).
 Proof.
-  induction entries as [|x r IH]; cbn [find_entry]; [discriminate|].
+  induction eu as [|c r IH]; intros url.
+  - destruct url as [|d u]; [reflexivity|].
+    cbn [append String.prefix String.get String.length is_slash andb]. destruct (ascii_dec "/" d) as [<-|Hn].
+    + now rewrite prefix_empty.
+    + destruct (Ascii.eqb_spec d "/") as [->|_]; [now elim Hn|reflexivity].
+  - destruct url as [|d u]; [reflexivity|].
+    cbn [append String.prefix String.get String.length]. destruct (ascii_dec c d); [apply IH|reflexivity].
+Qed.
+
+(* the repaired test is: the configured URL, slash-terminated, is a prefix *)
+Lemma url_matches_add_slash eu url : url_matches true eu url = String.prefix (add_slash eu) url.
+Proof.
+  unfold url_matches, add_slash. cbn [negb orb]. destruct (ends_with_slash eu).
+  - cbn [orb]. apply andb_true_r.
+  - cbn [orb]. symmetry. apply prefix_app_slash.
+Qed.
+Lemma url_matches_unrepaired eu url : url_matches false eu url = String.prefix eu url.
+Proof. unfold url_matches. cbn. apply andb_true_r. Qed.
+Lemma url_matches_prefix f eu url : url_matches f eu url = true -> String.prefix eu url = true.
+Proof. unfold url_matches. intros H. now apply andb_prop in H. Qed.
+(* what the repair removes, never adds *)
+Lemma url_matches_weaker eu url : url_matches true eu url = true -> url_matches false eu url = true.
+Proof. intros H. rewrite url_matches_unrepaired. exact (url_matches_prefix _ _ _ H). Qed.
+
+(* `url[len(entry.url)]` is in range whenever Go evaluates it *)
+Lemma prefix_length a : forall b, String.prefix a b = true -> String.length a <= String.length b.
+Proof.
+  induction a as [|c r IH]; intros b H; [cbn; lia|].
+  destruct b as [|d u]; [discriminate|]. cbn in *. destruct (ascii_dec c d); [|discriminate].
+  specialize (IH _ H). lia.
+Qed.
+Lemma prefix_same_length a : forall b, String.prefix a b = true -> String.length a = String.length b -> a = b.
+Proof.
+  induction a as [|c r IH]; intros b H Hl.
+  - destruct b; [reflexivity|discriminate].
+  - destruct b as [|d u]; [discriminate|]. cbn in *. destruct (ascii_dec c d) as [->|]; [|discriminate].
+    f_equal. apply IH; [exact H|lia].
+Qed.
+Lemma boundary_index_in_range eu url : String.prefix eu url = true ->
+  ends_with_slash url = true -> ends_with_slash eu = false -> String.length eu < String.length url.
+Proof.
+  intros Hp Hu He. pose proof (prefix_length _ _ Hp) as Hle.
+  destruct (Nat.eq_dec (String.length eu) (String.length url)) as [Heq|Hne]; [|lia].
+  rewrite (prefix_same_length _ _ Hp Heq) in He. congruence.
+Qed.
+
+Lemma find_entry_with_some f entries sch url e : find_entry_with f entries sch url = Some e ->
+  In e entries /\ is_url_allowed e sch = true /\ String.prefix (b_url e) url = true /\ (b_url e = "" \/ url_matches f (b_url e) url = true).
+Proof.
+  induction entries as [|x r IH]; cbn [find_entry_with]; [discriminate|].
   destruct (is_url_allowed x sch) eqn:Ea; cbn [negb].
-  2:{ intros H. destruct (IH H) as (H1 & H2 & H3). cbn. auto. }
+  2:{ intros H. destruct (IH H) as (H1 & H2 & H3 & H4). cbn. auto. }
   destruct (b_url x =? "") eqn:Eu.
   - intros H. injection H as <-. apply seqb_eq in Eu. rewrite Eu, prefix_empty. cbn. auto.
-  - destruct (String.prefix (b_url x) url) eqn:Ep.
-    + intros H. injection H as <-. cbn. auto.
-    + intros H. destruct (IH H) as (H1 & H2 & H3). cbn. auto.
+  - destruct (url_matches f (b_url x) url) eqn:Ep.
+    + intros H. injection H as <-. cbn. pose proof (url_matches_prefix _ _ _ Ep). auto.
+    + intros H. destruct (IH H) as (H1 & H2 & H3 & H4). cbn. auto.
+Qed.
+
+Lemma find_entry_some entries sch url e : find_entry entries sch url = Some e ->
+  In e entries /\ is_url_allowed e sch = true /\ String.prefix (b_url e) url = true /\
+  (b_url e = "" \/ String.prefix (add_slash (b_url e)) url = true).
+Proof.
+  intros H. apply find_entry_with_some in H as (H1 & H2 & H3 & H4). rewrite url_matches_add_slash in H4. auto.
+Qed.
+
+(* an entry the repaired lookup returns is one the old lookup could have returned, and
+   the old lookup returns the first entry the repaired one does not skip *)
+Lemma find_entry_repaired_none_or_same entries sch url e :
+  find_entry entries sch url = Some e -> exists e', find_entry_unrepaired entries sch url = Some e'.
+Proof.
+  unfold find_entry, find_entry_unrepaired.
+  induction entries as [|x r IH]; cbn [find_entry_with]; [discriminate|].
+  destruct (negb (is_url_allowed x sch)); [exact IH|].
+  destruct (b_url x =? ""); [eauto|].
+  destruct (url_matches true (b_url x) url) eqn:Em.
+  - rewrite (url_matches_weaker _ _ Em). eauto.
+  - destruct (url_matches false (b_url x) url); eauto.
 Qed.
 
 Lemma lookup_some_in st probe b : lookup_static up st probe = LRes (Some b) -> st_compat st = None ->
   exists p, up probe = Some p /\ In b (tget_d (st_tab st) (n_host p)) /\
-            is_url_allowed b (p_scheme p) = true /\ String.prefix (b_url b) (add_slash (n_str p)) = true.
+            is_url_allowed b (p_scheme p) = true /\ String.prefix (b_url b) (add_slash (n_str p)) = true /\
+            (b_url b = "" \/ String.prefix (add_slash (b_url b)) (add_slash (n_str p)) = true).
 Proof.
-  unfold lookup_static. destruct (up probe) as [p|]; [|discriminate]. intros H Hc. exists p. split; [reflexivity|].
-  unfold get_backend_static, get_backend_locked in H.
+  unfold lookup_static, lookup_static_with. destruct (up probe) as [p|]; [|discriminate]. intros H Hc. exists p. split; [reflexivity|].
+  unfold get_backend_static_with, get_backend_locked_with in H.
   destruct (st_tab st (n_host p)) as [entries|] eqn:Et.
   - destruct (n_str p =? ""); [discriminate|]. injection H as H. apply find_entry_some in H.
     unfold tget_d. rewrite Et. exact H.
   - rewrite Hc in H. destruct (st_allowall st); discriminate.
 Qed.
 
+Lemma mk_backend_url_nonempty common id s h b : mk_backend up common id s = Some (h, b) -> b_url b <> "".
+Proof.
+  unfold mk_backend. destruct (s_url s =? ""); [discriminate|].
+  destruct (up (add_slash (s_url s))) as [p|]; [|discriminate].
+  destruct ((if normalised p then p_nstr p else add_slash (s_url s)) =? "") eqn:E; [discriminate|].
+  cbn [orb]. destruct (N.eqb _ 0); [discriminate|]. intros H. injection H as _ <-. cbn.
+  intros Hu. rewrite Hu in E. discriminate.
+Qed.
+
 Theorem accepted_only_if_configured c0 cs st probe b :
   Forall new_style (c0 :: cs) -> run_chain up c0 cs = Some st ->
   lookup_static up st probe = LRes (Some b) ->
   exists p, up probe = Some p /\ configured_backend (last cs c0) (n_host p) b /\
-            is_url_allowed b (p_scheme p) = true /\ String.prefix (b_url b) (add_slash (n_str p)) = true.
+            is_url_allowed b (p_scheme p) = true /\ String.prefix (b_url b) (add_slash (n_str p)) = true /\
+            String.prefix (add_slash (b_url b)) (add_slash (n_str p)) = true.
 Proof.
   intros Hn Hr Hl. destruct (reload_eq_fresh_state c0 cs Hn) as (st' & Hr' & He).
   rewrite Hr in Hr'. injection Hr' as <-.
@@ -286,9 +368,12 @@ Proof.
     - now inversion Hn.
     - rewrite last_cons. apply IH. now inversion Hn. }
   destruct (fresh_new_style _ Hlast) as (Hc & Ha & Ht). destruct He as (Ea & Ec & Et).
-  destruct (lookup_some_in st probe b Hl ltac:(congruence)) as (p & Hp & Hin & H1 & H2).
-  exists p. repeat split; auto. apply configured_mem.
-  unfold tget_d in *. rewrite <- Ht, <- Et. exact Hin.
+  destruct (lookup_some_in st probe b Hl ltac:(congruence)) as (p & Hp & Hin & H1 & H2 & H3).
+  assert (Hcb : configured_backend (last cs c0) (n_host p) b).
+  { apply configured_mem. unfold tget_d in *. rewrite <- Ht, <- Et. exact Hin. }
+  exists p. repeat split; auto.
+  destruct H3 as [H3|H3]; [|exact H3]. destruct Hcb as (id & s & _ & _ & Hm).
+  now elim (mk_backend_url_nonempty _ _ _ _ _ Hm).
 Qed.
 
 End Static.
@@ -741,19 +826,20 @@ Qed.
 Theorem etcd_eq_fresh evs probe :
   lookup_etcd up (run_etcd up evs) probe = lookup_etcd up (fresh_etcd up (final_kv evs)) probe.
 Proof.
-  unfold lookup_etcd. destruct (up probe) as [p|]; [|reflexivity].
-  unfold get_backend_locked. now rewrite etcd_eq_fresh_table.
+  unfold lookup_etcd, lookup_etcd_with. destruct (up probe) as [p|]; [|reflexivity].
+  unfold get_backend_locked_with. now rewrite etcd_eq_fresh_table.
 Qed.
 
 (* what a lookup returns is the accepted value of a key etcd still holds *)
 Theorem etcd_accepted_only_if_live evs probe b :
   lookup_etcd up (run_etcd up evs) probe = LRes (Some b) ->
   exists p, up probe = Some p /\ live evs (b_id b) = Some (n_host p, b) /\
-            is_url_allowed b (p_scheme p) = true /\ String.prefix (b_url b) (add_slash (n_str p)) = true.
+            is_url_allowed b (p_scheme p) = true /\ String.prefix (b_url b) (add_slash (n_str p)) = true /\
+            (b_url b = "" \/ String.prefix (add_slash (b_url b)) (add_slash (n_str p)) = true).
 Proof.
-  unfold lookup_etcd. destruct (up probe) as [p|]; [|discriminate]. intros H. exists p. split; [reflexivity|].
-  unfold get_backend_locked in H. destruct (es_tab (run_etcd up evs) (n_host p)) as [entries|] eqn:Et; [|discriminate].
-  destruct (n_str p =? ""); [discriminate|]. injection H as H. apply find_entry_some in H as (Hin & Ha & Hp).
+  unfold lookup_etcd, lookup_etcd_with. destruct (up probe) as [p|]; [|discriminate]. intros H. exists p. split; [reflexivity|].
+  unfold get_backend_locked_with in H. destruct (es_tab (run_etcd up evs) (n_host p)) as [entries|] eqn:Et; [|discriminate].
+  destruct (n_str p =? ""); [discriminate|]. injection H as H. apply find_entry_some in H as (Hin & Ha & Hp & Hb).
   split; [|auto]. destruct (run_etcd_inv evs) as [_ [_ _ H3]]. apply H3. unfold tget_d. now rewrite Et.
 Qed.
 
